@@ -3,7 +3,8 @@
 Real code: phylib.io.merge.Merger(...).merge() on generated KiloSort-style probe directories
 (harness/vt/datasets_c11.py).  Observed: the written per-spike files, cluster_probes.npy, the merger's
 cluster/template offsets, the written cluster_*.tsv files, the arrays and metadata of the returned TemplateModel,
-SHA-256 of every input file before/after."""
+SHA-256 of every input file before/after, and the merged templates.npy (cross-property clause 29: the merged
+spike_templates index the rows of the merged templates.npy)."""
 import copy
 import itertools
 import os
@@ -16,11 +17,13 @@ from .. import datasets_c11 as D11
 
 ID = 'C11'
 RULE = ('merges of generated probe directories: corpus (probe with exactly one spike, id dtypes differing between probes, '
-        'heavy ties, gaps, curated clusters, TSV present in all/some/none, a probe without spikes), then EVERY pair of '
+        'heavy ties, gaps, curated clusters, TSV present in all/some/none, a probe without spikes, a non-last / middle / last '
+        'probe whose trailing templates have no spike, unused middle templates, a probe whose spikes name a template beyond '
+        'its templates.npy), then EVERY pair of '
         'non-decreasing time vectors of 1..3 spikes over 3 time values (2 probes; thorough: also 3 probes of 1..2 spikes '
         'and 2 probes of up to 4 spikes) with pseudo-random ids, then seeded random merges of 1..4 probes x 1..30 spikes '
         '(ties inside and across probes, id gaps, curated clusters, time/id/amplitude dtypes, (n,1) vectors, TSV files in '
-        'all/some/none, unsorted probe). Non-trivial = the merge completes with >= 2 probes and at least one time shared by '
+        'all/some/none, unsorted probe, 0..2 trailing templates without spikes in any probe). Non-trivial = the merge completes with >= 2 probes and at least one time shared by '
         'two probes or one TSV file present; distinct = distinct abstract input.')
 EXHAUSTIVE = {'quick': True, 'thorough': True}
 CLAUSES = {
@@ -33,6 +36,8 @@ CLAUSES = {
     26: 'C11_metadata: renumbered TSV maps id + offset -> value (files present in all/some/none of the probes)',
     27: 'the TemplateModel returned by merge() equals the written files',
     28: 'input directories byte-identical after the merge (observed by SHA-256, not proved)',
+    29: 'C12_spike_template_rows (link C11 x C12): row spike_templates[i] of the merged templates.npy is the template the '
+        'spike named in its own probe, on that probe\'s channel block',
 }
 TRUSTED = ['np.load/np.save/np.concatenate/np.argsort(kind="stable")/fancy indexing, csv reader/writer, read_python/write_python',
            "C12's functions (write_channel_data .. write_misc, write_params) run inside merge() on fixed harmless "
@@ -41,6 +46,8 @@ TRUSTED = ['np.load/np.save/np.concatenate/np.argsort(kind="stable")/fancy index
 ASSUMES = ['every probe has >= 1 spike (np.max of an empty id array raises: modelled as an error exit) and the merged dataset '
            '>= 2 spikes (TemplateModel squeezes a one-spike dataset)',
            'ids >= 0; values fit the dtype of the first probe (np.concatenate(...).astype(first dtype) is not modelled)',
+           'every spike names one of the templates of its probe (template id < rows of templates.npy); inputs violating it '
+           'are compared with the model only (the merge goes through with colliding template ids: C11_template_count_needed)',
            'metadata ids lie in 0..max cluster id of their probe (ids beyond it fall into the next probe\'s interval; '
            'see notes/C11.md)',
            'metadata values are canonical text (no quoting, numbers in repr form)',
@@ -71,7 +78,8 @@ def _probe(times, rng, **o):
         clu = list(tmpl)
     p = {'times': list(times), 'amps': [rng.randint(1, 40) / 4 for _ in range(n)], 'tmpl': tmpl, 'clu': clu,
          'tdt': o.get('tdt', 'uint64'), 'adt': o.get('adt', 'float64'), 'idt': o.get('idt', 'uint32'),
-         'cdt': o.get('cdt', o.get('idt', 'uint32')), 'vec2d': o.get('vec2d', False), 'extra_t': o.get('extra_t', 0),
+         'cdt': o.get('cdt', o.get('idt', 'uint32')), 'vec2d': o.get('vec2d', False),
+         'extra_t': o.get('extra_t', rng.choice([0, 0, 0, 1, 2])),
          'meta': {}}
     return p
 
@@ -108,7 +116,7 @@ def _random_case(rng, big=False):
     pat = rng.choice(['all', 'some', 'none', 'some'])
     for j in range(k):
         n = rng.choice([1, 1, 2, 3, 5, 8, 13, 30]) if not big else rng.randint(1, 60)
-        o = {'vec2d': rng.random() < 0.25, 'extra_t': rng.choice([0, 0, 1]), 'adt': rng.choice(AMP_DT)}
+        o = {'vec2d': rng.random() < 0.25, 'extra_t': rng.choice([0, 0, 1, 2]), 'adt': rng.choice(AMP_DT)}
         if same_dt:
             o.update(idt=idt, cdt=cdt, tdt=tdt)
         else:
@@ -163,6 +171,16 @@ def _corpus(rng):
     add([dict(P0, meta={'cluster_KSLabel.tsv': {'field': 'A', 'rows': [[1, 'x']]}}),
          dict(P1, meta={'cluster_KSLabel.tsv': {'field': 'B', 'rows': [[1, 'y']]}}), dict(P2, times=[4], meta={})])
     add([dict(P0, tdt='int32', adt='float32', extra_t=1), dict(P1, tdt='uint64', adt='float64')])
+    # cross-property defect (fix-c11b): template offsets must be the cumulative ROW COUNTS of templates.npy.  Trailing
+    # templates without spikes in a non-last probe (first / middle), two of them, in every probe; controls where
+    # max(spike_templates)+1 happens to be the count: unused MIDDLE templates, trailing unused templates in the last probe only
+    add([dict(P0, extra_t=1), P1]); add([dict(P0, extra_t=2), P1, P2]); add([P0, dict(P1, extra_t=1), P2])
+    add([dict(P0, extra_t=1), dict(P1, extra_t=2), dict(P2, extra_t=1)])
+    add([dict(P0, tmpl=[0, 0, 0, 0], clu=[0, 0, 0, 0], meta={}, extra_t=3), dict(P1, meta={})])
+    add([dict(P0, tmpl=[0, 3, 3, 0], meta={}), P1]); add([dict(P0, tmpl=[4, 4, 1, 4], meta={}), dict(P1, tmpl=[2, 0, 2]), P2])
+    add([P0, dict(P1, extra_t=2)]); add([P0, P1, dict(P2, extra_t=2)])
+    # guard violated (a spike names a template beyond the probe's templates.npy): compared with the model only
+    add([dict(P0, nt=2, meta={}), dict(P1, meta={})]); add([dict(P1, nt=1, meta={}), dict(P0, meta={})])
     # a probe without spikes: np.max raises (error exit of the model)
     add([P0, {'times': [], 'amps': [], 'tmpl': [], 'clu': [], 'meta': {}}])
     for c in cases:
@@ -245,7 +263,10 @@ def run_case(case):
                 raise ValueError('not one-dimensional: %r' % (a.shape,))
             return [D.tok(float(x)) for x in a.tolist()]
         ld = lambda fn: np.load(os.path.join(out, fn))
+        T = ld('templates.npy')
         obs = {
+            'templates': ([[[D.tok(float(x)) for x in row] for row in tm] for tm in T.astype(np.float64).tolist()]
+                          if T.ndim == 3 and T.size else None),
             'times': ints(ld('spike_times.npy')), 'amps': toks(ld('amplitudes.npy')),
             'tmpl': ints(ld('spike_templates.npy')), 'clu': ints(ld('spike_clusters.npy')),
             'cprobes': ints(ld('cluster_probes.npy')),
@@ -290,20 +311,27 @@ def _enc_probe(p):
     for fn in META:
         m = p.get('meta', {}).get(fn)
         metas.append(None if m is None else [m['field'], m['rows']])
-    return '(mkprobe %s %s %s %s %s)' % (q.zl(p['times']), _amps([D.tok(float(a)) for a in p['amps']]), q.zl(p['tmpl']),
-                                         q.zl(p['clu']), q.lst(metas, _mt))
+    return '(mkprobe %s %s %s %s %s %s)' % (q.zl(p['times']), _amps([D.tok(float(a)) for a in p['amps']]), q.zl(p['tmpl']),
+                                            q.zl(p['clu']), q.z(D11.n_templates(p)), q.lst(metas, _mt))
+
+
+def _tlll(T):
+    return q.lst(T, lambda tm: q.lst(tm, lambda row: q.lst(row, lambda v: D.coq_tok(tuple(v) if isinstance(v, list) else v))))
 
 
 def encode(case, obs):
-    cin = '(InMerge %s)' % q.lst(case['inp']['probes'], _enc_probe)
+    ps = case['inp']['probes']
+    cin = '(InMerge %s %s)' % (q.lst(ps, _enc_probe), q.lst(
+        [[[[D.tok(v) for v in row] for row in tm] for tm in D11.templates_of(p, k)] for k, p in enumerate(ps)], _tlll))
     if obs[0] == 'crash':
         return cin, 'ObsCrash'
     o = obs[1]
     r = o['ret']
-    cobs = '(ObsMerged (mkobs %s %s %s %s %s %s %s %s (%s, %s, %s, %s) %s %s))' % (
+    cobs = '(ObsMerged (mkobs %s %s %s %s %s %s %s %s (%s, %s, %s, %s) %s %s) %s)' % (
         q.zl(o['times']), _amps(o['amps']), q.zl(o['tmpl']), q.zl(o['clu']), q.zl(o['cprobes']), q.zl(o['coffs']),
         q.zl(o['toffs']), q.lst(o['meta'], _mt), q.zl(r[0]), _amps(r[1]), q.zl(r[2]), q.zl(r[3]),
-        q.lst(o['ret_meta'], _mt), q.b(o['unchanged']))
+        q.lst(o['ret_meta'], _mt), q.b(o['unchanged']),
+        'None' if o.get('templates') is None else '(Some %s)' % _tlll(o['templates']))
     return cin, cobs
 
 
@@ -340,7 +368,13 @@ def dist(case, obs):
            'id_dtypes_differ=%s' % (len({(p['idt'], p['cdt']) for p in ps}) > 1),
            'time_dtypes_differ=%s' % (len({p['tdt'] for p in ps}) > 1),
            'vec2d=%s' % any(p['vec2d'] for p in ps),
-           'unsorted_probe=%s' % any(p['times'] != sorted(p['times']) for p in ps)]
+           'unsorted_probe=%s' % any(p['times'] != sorted(p['times']) for p in ps),
+           'unused_trailing_templates_in_nonlast_probe=%s' % any(
+               p['tmpl'] and D11.n_templates(p) > max(p['tmpl']) + 1 for p in ps[:-1]),
+           'unused_trailing_templates_in_last_probe=%s' % bool(
+               ps and ps[-1]['tmpl'] and D11.n_templates(ps[-1]) > max(ps[-1]['tmpl']) + 1),
+           'unused_middle_templates=%s' % any(p['tmpl'] and len(set(p['tmpl'])) < max(p['tmpl']) + 1 for p in ps),
+           'template_guard_violated=%s' % any(p['tmpl'] and D11.n_templates(p) <= max(p['tmpl']) for p in ps)]
     for fn in META:
         n = sum(1 for p in ps if fn in p.get('meta', {}))
         out.append('%s=%s' % (fn, 'none' if n == 0 else 'all' if n == len(ps) else 'some'))
@@ -397,6 +431,10 @@ def shrink(case):
                 new = copy.deepcopy(ps)
                 new[k][key] = dv
                 out.append(mk(new))
+        if p.get('extra_t', 0) > 1:
+            new = copy.deepcopy(ps)
+            new[k]['extra_t'] = p['extra_t'] - 1
+            out.append(mk(new))
         for key in ('times', 'tmpl', 'clu'):
             for i in range(n):
                 if p[key][i] > 0:
